@@ -1210,13 +1210,20 @@ private:
          // reinitialize our list of currently active states with the ones defined in Derived::initial_state
          ::boost::mpl::for_each< seq_initial_states, ::boost::msm::wrap<mpl::placeholders::_1> >
                         (init_states(m_states));
-        // call on_entry on this SM
-        (static_cast<Derived*>(this))->on_entry(fsm_initial_event(),*this);
-        ::boost::mpl::for_each<initial_states, boost::msm::wrap<mpl::placeholders::_1> >
-            (call_init<fsm_initial_event>(fsm_initial_event(),this));
+        {
+            // block immediate handling of events raised by the entry behaviours, as in do_entry
+            m_event_processing = true;
+            event_processing_reset reset_on_exit(m_event_processing);
+            // call on_entry on this SM
+            (static_cast<Derived*>(this))->on_entry(fsm_initial_event(),*this);
+            ::boost::mpl::for_each<initial_states, boost::msm::wrap<mpl::placeholders::_1> >
+                (call_init<fsm_initial_event>(fsm_initial_event(),this));
+        }
         // give a chance to handle an anonymous (eventless) transition
         handle_eventless_transitions_helper<library_sm> eventless_helper(this,true);
         eventless_helper.process_completion_event();
+        // handle messages which were generated and blocked in the entry calls
+        process_message_queue(this);
     }
 
     // start the state machine (calls entry of the initial state passing incomingEvent to on_entry's)
@@ -1226,13 +1233,20 @@ private:
         // reinitialize our list of currently active states with the ones defined in Derived::initial_state
         ::boost::mpl::for_each< seq_initial_states, ::boost::msm::wrap<mpl::placeholders::_1> >
                         (init_states(m_states));
-        // call on_entry on this SM
-        (static_cast<Derived*>(this))->on_entry(incomingEvent,*this);
-        ::boost::mpl::for_each<initial_states, boost::msm::wrap<mpl::placeholders::_1> >
-            (call_init<Event>(incomingEvent,this));
+        {
+            // block immediate handling of events raised by the entry behaviours, as in do_entry
+            m_event_processing = true;
+            event_processing_reset reset_on_exit(m_event_processing);
+            // call on_entry on this SM
+            (static_cast<Derived*>(this))->on_entry(incomingEvent,*this);
+            ::boost::mpl::for_each<initial_states, boost::msm::wrap<mpl::placeholders::_1> >
+                (call_init<Event>(incomingEvent,this));
+        }
         // give a chance to handle an anonymous (eventless) transition
         handle_eventless_transitions_helper<library_sm> eventless_helper(this,true);
         eventless_helper.process_completion_event();
+        // handle messages which were generated and blocked in the entry calls
+        process_message_queue(this);
     }
 
     // stop the state machine (calls exit of the current state)
